@@ -174,6 +174,14 @@ def verify(rec, model, data, tag, check_codes):
                 bad = [i for i in range(min(len(got), len(want))) if got[i] != want[i]][:3]
                 msgs = ['channel %s: timestamps differ at %r: got %r expected %r' % (
                     p, bad, [str(got[i]) for i in bad], [str(want[i]) for i in bad])]
+            else:
+                # the same data read as raw timestamps: whole seconds since 1904 (negative before the epoch) must match
+                ok2, raw = rec.guard(tag + 'read_channel', lambda: tfr[g][c][:])
+                if ok2 and len(raw) == len(exp):
+                    secs = [int(x) for x in np.asarray(raw['seconds'])] if len(raw) else []
+                    want_secs = [v // 10 ** 6 for v in exp]
+                    if secs != want_secs:
+                        msgs = ['channel %s: raw timestamp seconds %r, expected %r' % (p, secs[:4], want_secs[:4])]
         elif t == 'intlist':
             exp = [v for w in writes for v in w[1]]
             g_list = [int(x) for x in got]
